@@ -57,6 +57,12 @@ def must_effects(prog, cname, mname, _depth=0, _after=None):
                 for t in st.targets:
                     if is_self_attr(t):
                         out.append(('set', t.attr, st))
+            elif isinstance(st, ast.For) and isinstance(st.target, ast.Name) and isinstance(st.iter, (ast.Tuple, ast.List)) and len(st.body) == 1 \
+                    and isinstance(st.body[0], ast.Expr) and isinstance(st.body[0].value, ast.Call) and unparse(st.body[0].value.func) == 'self.__dict__.pop' \
+                    and len(st.body[0].value.args) == 2 and unparse(st.body[0].value.args[0]) == st.target.id and not st.orelse \
+                    and all(isinstance(e_, ast.Constant) and isinstance(e_.value, str) for e_ in st.iter.elts):
+                # the same with the tuple of names written out (a class constant read through self is folded by the normaliser)
+                out += [('set', e_.value, st) for e_ in st.iter.elts]
             elif isinstance(st, ast.For) and isinstance(st.target, ast.Name) and is_self_attr(st.iter) and len(st.body) == 1 and isinstance(st.body[0], ast.Expr) \
                     and isinstance(st.body[0].value, ast.Call) and unparse(st.body[0].value.func) == 'self.__dict__.pop' and len(st.body[0].value.args) == 2 \
                     and unparse(st.body[0].value.args[0]) == st.target.id and not st.orelse:
